@@ -4,7 +4,7 @@
 // notifications/initialized, a hanging GET (the standalone SSE stream, on which the server's pings travel), and per
 // tick, on script: the ping is answered by a POSTed result after d (j<d>), by a POSTed JSON-RPC error -32601 (J<d>)
 // or -32603 (x<d>), not at all (n), or — R0 — the client has NO standalone stream open at that tick (it dropped its
-// GET a quarter interval before and reconnects a quarter interval after): streamableServerConn.Write refuses the
+// GET a quarter interval before and reconnects a quarter interval before the next tick at which it is present): streamableServerConn.Write refuses the
 // ping with jsonrpc2.ErrRejected ("undelivered message"), which is a failed ping. The harness ends the session
 // with an HTTP DELETE. Observed: the instant of every ping ATTEMPT of the server session (sending middleware), the
 // instant its Wait returned before the DELETE, attempts after the DELETE.
